@@ -833,6 +833,14 @@ type c04BytesBox struct {
 	A3   [3]byte  `json:",format:array"`
 	ADef [7]byte
 	P    *[]byte  `json:",format:base64url"`
+	// [N]byte with every explicit string format: the tag must win over FormatByteArrayAsArray / DefaultOptionsV1
+	// on BOTH sides (the option sets below include them)
+	AB16  [4]byte  `json:",format:base16"`
+	AHex  [2]byte  `json:",format:hex"`
+	AB32H [6]byte  `json:",format:base32hex"`
+	AB64  [4]byte  `json:",format:base64"`
+	AB64U [9]byte  `json:",format:base64url"`
+	PA    *[3]byte `json:",format:base64"`
 }
 
 func c04BytesFormats(c *Ctx) {
@@ -866,6 +874,14 @@ func c04BytesFormats(c *Ctx) {
 				copy(in.A5[:], p)
 				copy(in.A3[:], p)
 				copy(in.ADef[:], p)
+				copy(in.AB16[:], p)
+				copy(in.AHex[:], p)
+				copy(in.AB32H[:], p)
+				copy(in.AB64[:], p)
+				copy(in.AB64U[:], p)
+				var pa [3]byte
+				copy(pa[:], p)
+				in.PA = &pa
 				var out c04BytesBox
 				var b []byte
 				var err, err2 error
@@ -880,7 +896,8 @@ func c04BytesFormats(c *Ctx) {
 				}
 				eq := func(x []byte) bool { return bytes.Equal(x, p) }
 				ok := err == nil && err2 == nil && eq(out.Def) && eq(out.B64) && eq(out.B64U) && eq(out.B32) && eq(out.B32H) && eq(out.B16) && eq(out.Hex) && eq(out.Arr) &&
-					out.A5 == in.A5 && out.A3 == in.A3 && out.ADef == in.ADef && out.P != nil && eq(*out.P)
+					out.A5 == in.A5 && out.A3 == in.A3 && out.ADef == in.ADef && out.P != nil && eq(*out.P) &&
+					out.AB16 == in.AB16 && out.AHex == in.AHex && out.AB32H == in.AB32H && out.AB64 == in.AB64 && out.AB64U == in.AB64U && out.PA != nil && *out.PA == pa
 				if !ok {
 					c.Violate("rt-bytes", "bytes-formats:"+s.name, b, map[string]any{"len": l, "payload": hx(p), "json": trunc(string(b), 2000), "marshal_err": fmt.Sprint(err), "unmarshal_err": fmt.Sprint(err2)})
 				}
@@ -892,7 +909,7 @@ func c04BytesFormats(c *Ctx) {
 			}
 		}
 	}
-	c.HitN("bytes-formats(base64,base64url,base32,base32hex,base16,hex,array,[N]byte,ptr) len 0..70", int64(n))
+	c.HitN("bytes-formats(base64,base64url,base32,base32hex,base16,hex,array; []byte, [N]byte with every format, ptr) len 0..70 x {FormatTag, +DefaultOptionsV1, +FormatByteArrayAsArray, +FormatBytesWithLegacySemantics}", int64(n))
 }
 
 // ---------------------------------------------------------------- correspondence: time codecs vs the Lean model
